@@ -165,6 +165,7 @@ def mon (m : MSt) (op : List String) (exts : List (List String)) (obs : Option S
     let fails :=
       (if num "dbl" > 0 then [mkFail "C27:concurrent-double-apply" s!"{num "dbl"} contents written once were notified more than once to a listener ({o})"] else []) ++
       (if num "lost" > 0 then [mkFail "C27:concurrent-lost-update" s!"{num "lost"} rounds ended (all triggers returned, the last one fired after the last write) with a running config that is not the content on disk ({o})"] else []) ++
+      (if num "rej" > 0 then [mkFail "C27:rejected-content-applied" s!"{num "rej"} rounds changed the running config although startup rejects the files ({o})"] else []) ++
       (if num "miss" > 0 then [mkFail "C27:concurrent-missed-notification" s!"{num "miss"} applied contents were not notified to some listener ({o})"] else [])
     match exts.find? (fun e => e.head? == some "final") with
     | some ["final", ac, ar, cs, disk, "=", _] =>
